@@ -52,11 +52,11 @@ func (C03) Runs(tier string) int {
 func (C03) Meta() core.Meta {
 	return core.Meta{
 		Level: "fault_enumeration",
-		Rule: "a case = (file with 1..5 stanzas, one header edit, one identity able to open the original, delivery schedule). Sweep runs enumerate every single-bit flip of the header bytes of a small file; sampled runs apply one byte-level edit (insert/delete/substitute incl. CR, space, '='), one write-level fault on the recorded Header.Marshal write list (drop/duplicate/swap a write or a run of writes: lost, replayed, reordered flushes) or one structural edit by the reference writer with the MAC left stale or replaced (type/argument/body substitution, grease insertion at every position, stanza deletion/duplication/permutation, MAC random or under another file key). Non-trivial = the image differs from the original; distinct = distinct (file skeleton, edit, identity, delivery).",
+		Rule: "a case = (file with 1..5 stanzas, one header edit, one identity able to open the original, delivery schedule). Sweep runs enumerate every single-bit flip of the header bytes of a small file; sampled runs apply one byte-level edit (insert/delete/substitute incl. CR, space, '='), one line-ending/separator translation (CR before a line end, CRLF everywhere, trailing space, blank line, joined lines, tab or double space for a separator; sweep runs apply these to every line), one write-level fault on the recorded Header.Marshal write list (drop/duplicate/swap a write or a run of writes: lost, replayed, reordered flushes) or one structural edit by the reference writer with the MAC left stale or replaced (type/argument/body substitution, grease insertion at every position, stanza deletion/duplication/permutation, MAC random or under another file key). Non-trivial = the image differs from the original; distinct = distinct (file skeleton, edit, identity, delivery).",
 		Assumptions: []string{"the editor does not hold the file key (a recipient can always re-MAC; that is outside the property)", "HMAC-SHA-256/HKDF are the trusted base"},
 		Real:        []string{"filippo.io/age Decrypt", "internal/format Parse", "X25519/scrypt/ssh identities", "headerMAC"},
 		Stub:        []string{"ciphertext source", "stored header image (edited copy of what SimDisk recorded)", "crypto/rand.Reader (tape)", "byzantine editor (reference writer without the key)"},
-		FaultKinds:  []string{"fault.flip", "fault.insert", "fault.delete", "fault.subst", "fault.wdrop", "fault.wdup", "fault.wswap", "fault.type", "fault.arg", "fault.argdel", "fault.argadd", "fault.body", "fault.bodylen", "fault.grease_insert", "fault.stanza_delete", "fault.stanza_dup", "fault.permute", "fault.mac_random", "fault.mac_otherkey"},
+		FaultKinds:  []string{"fault.flip", "fault.insert", "fault.delete", "fault.subst", "fault.wdrop", "fault.wdup", "fault.wswap", "fault.type", "fault.arg", "fault.argdel", "fault.argadd", "fault.body", "fault.bodylen", "fault.grease_insert", "fault.stanza_delete", "fault.stanza_dup", "fault.permute", "fault.mac_random", "fault.mac_otherkey", "fault.eol_cr", "fault.eol_crlf_all", "fault.eol_space", "fault.eol_blank", "fault.eol_join", "fault.sep_tab", "fault.sep_double"},
 		Probes:      []string{"probe.edit_in_other_recipients_stanza", "probe.still_parseable", "probe.unparseable", "probe.trivial_same_image", "probe.rejected_bad_mac", "probe.rejected_no_match", "probe.bufio_reuse_path", "probe.bufio_rewrap_path", "probe.fault_landed_in_payload"},
 	}
 }
@@ -76,7 +76,8 @@ func (C03) Generate(r *core.RNG, tier string, idx uint64) interface{} {
 	p.File.Recips = lib.GenRecips(r, 5, r.Chance(1, 5), true)
 	e := &HeaderEdit{}
 	kinds := []string{"insert", "delete", "subst", "wdrop", "wdup", "wswap", "type", "arg", "argdel", "argadd", "body", "bodylen",
-		"grease_insert", "stanza_delete", "stanza_dup", "permute", "mac_random", "mac_otherkey", "flip"}
+		"grease_insert", "stanza_delete", "stanza_dup", "permute", "mac_random", "mac_otherkey", "flip",
+		"eol_cr", "eol_crlf_all", "eol_space", "eol_blank", "eol_join", "sep_tab", "sep_double"}
 	e.Kind = kinds[r.Intn(len(kinds))]
 	e.Off = r.Intn(2000)
 	e.Bit = r.Intn(8)
@@ -154,6 +155,39 @@ func applyHeaderEdit(e *HeaderEdit, F []byte, l *lib.Layout, disk *seam.SimDisk,
 		h := append([]byte(nil), hdr...)
 		h[e.Off%hl] = byte(e.Byte)
 		return join(h), true
+	case "eol_cr", "eol_crlf_all", "eol_space", "eol_blank", "eol_join", "sep_tab", "sep_double":
+		// line-ending and separator translation, the classic transport damage of text headers
+		var nl, sp []int
+		for i, b := range hdr {
+			if b == '\n' {
+				nl = append(nl, i)
+			}
+			if b == ' ' {
+				sp = append(sp, i)
+			}
+		}
+		ins := func(at int, x string) []byte {
+			return append(append(append([]byte(nil), hdr[:at]...), x...), hdr[at:]...)
+		}
+		switch e.Kind {
+		case "eol_cr":
+			return join(ins(nl[e.I%len(nl)], "\r")), true
+		case "eol_crlf_all":
+			return join(bytes.ReplaceAll(hdr, []byte("\n"), []byte("\r\n"))), true
+		case "eol_space":
+			return join(ins(nl[e.I%len(nl)], " ")), true
+		case "eol_blank":
+			return join(ins(nl[e.I%len(nl)], "\n")), true
+		case "eol_join":
+			at := nl[e.I%len(nl)]
+			return join(append(append([]byte(nil), hdr[:at]...), hdr[at+1:]...)), true
+		case "sep_tab":
+			h := append([]byte(nil), hdr...)
+			h[sp[e.I%len(sp)]] = '\t'
+			return join(h), true
+		default:
+			return join(ins(sp[e.I%len(sp)], " ")), true
+		}
 	case "wdrop", "wdup", "wswap":
 		// the header's write list as the library issued it
 		var ws [][]byte
@@ -371,6 +405,16 @@ func (e C03) Execute(plan interface{}, c *core.Ctx) *core.Verdict {
 	}
 
 	if p.Sweep {
+		for i := 0; i < 40; i++ {
+			for _, k := range []string{"eol_cr", "eol_space", "eol_blank", "eol_join", "sep_tab", "sep_double"} {
+				if v := check(&HeaderEdit{Kind: k, I: i}); v != nil {
+					return v
+				}
+			}
+		}
+		if v := check(&HeaderEdit{Kind: "eol_crlf_all"}); v != nil {
+			return v
+		}
 		for off := 0; off < l.HeaderLen; off++ {
 			for bit := 0; bit < 8; bit++ {
 				if v := check(&HeaderEdit{Kind: "flip", Off: off, Bit: bit}); v != nil {
